@@ -84,9 +84,24 @@ pub fn sems(ctx: &mut Ctx, lo: usize, hi: usize) {
     }
 }
 
+pub fn scale(ctx: &mut Ctx) {
+    ctx.stage("U-SCALE (255/256/257/300 of every countable thing)");
+    for (name, prog) in super::super::universes::scale::programs(!ctx.quick()) {
+        if ctx.take().is_none() { continue }
+        let fuel = Fuel { steps: 2_000_000, depth: 2_000, cells: 100_000, array: 10_000, output: 1_000_000 };
+        let r = refsem::run_with(&prog, fuel, &[]);
+        ctx.count("programs", 1);
+        ctx.count(&format!("scale:{:?}", r.status), 1);
+        if r.status == Status::Unspec { ctx.note(&format!("U-SCALE `{}` is unspecified: {}", name, r.reason)) }
+        let j = semantic_case_with(ctx, "U-SCALE", &prog, r, true);
+        if j.compared { cli_case(ctx, "U-SCALE", &prog, &j.reference) }
+    }
+}
+
 pub fn run(ctx: &mut Ctx) {
     ctx.stage("CORPUS");
     corpus(ctx);
+    scale(ctx);
     ctx.stage("U-PAIR(d=2)");
     pairs(ctx, 2);
     ctx.stage("U-PAIR(d=3)");
